@@ -408,14 +408,16 @@ fn proto_choice() {
 
 /// host.port_unless_default / host.secure_scheme (unit hostport) + A.host.value [C13]: on an HTTP/1 connection the
 /// Host header equals the URI host plus the port unless it is the scheme's default; a Host supplied by the caller wins.
-/// Sweep: 5 schemes x 4 hosts x 6 ports.
+/// Sweep: 5 schemes x 4 hosts x 6 ports x 3 userinfo forms (none, user@, user:secret@).
 #[test]
 fn host_value_sweep() {
     use tower::Layer;
     for scheme in ["http", "https", "ws", "wss", "ftp"] {
         for host in ["example.com", "127.0.0.1", "[::1]", "a_b.example"] {
             for port in [None, Some(80u16), Some(443), Some(8080), Some(8443), Some(1)] {
-                let uri = match port { Some(p) => format!("{scheme}://{host}:{p}/x?y=1"), None => format!("{scheme}://{host}/x?y=1") };
+              // the authority may carry userinfo, which is no part of the host (RFC 9110 7.2: Host = uri-host [":" port])
+              for userinfo in ["", "user@", "user:secret@"] {
+                let uri = match port { Some(p) => format!("{scheme}://{userinfo}{host}:{p}/x?y=1"), None => format!("{scheme}://{userinfo}{host}/x?y=1") };
                 let secure = scheme == "https" || scheme == "wss";
                 let default = matches!((port, secure), (Some(443), true) | (Some(80), false));
                 let expected = match port { Some(p) if !default => format!("{host}:{p}"), _ => host.to_string() };
@@ -428,6 +430,7 @@ fn host_value_sweep() {
                 let out = SetHostHeaderLayer::new().layer(EchoPlain).call(req).now_or_never().unwrap().unwrap();
                 assert_eq!(out.headers().get(http::header::HOST).unwrap(), "caller.example", "{uri}: caller's Host overridden");
                 assert_eq!(out.headers().get_all(http::header::HOST).iter().count(), 1);
+              }
             }
         }
     }
